@@ -146,7 +146,10 @@ static Outcome observe_in(uint64_t where, const Thunk& f, bool copy_msg = false)
 static std::string at(uint64_t where) { return where == 0 ? std::string() : cat("@", kWhereNames[where]); }
 
 // the failure must carry the call site and the message
-static void check_failure(const Outcome& o, const char* file, uint64_t line, const std::string& msg, bool msg_is_literal, const std::string& what_must_contain, const std::string& cls) {
+// generated_wording: the message is one the macro makes up (expect_eq(a, b) -> "a != b" in /repo): that there is one and that what()
+// shows it is checked, its wording is not (only expect_msg's message is the caller's own text)
+static void check_failure(const Outcome& o, const char* file, uint64_t line, const std::string& msg, bool msg_is_literal, const std::string& what_must_contain_in, const std::string& cls, bool generated_wording = false) {
+  std::string what_must_contain = generated_wording ? (o.has_msg ? o.msg : std::string()) : what_must_contain_in;
   VCHECK(o.threw, cat("must-fail:", cls), "helper returned normally although the expectation is false");
   VCHECK(o.is_expectation_failed, cat("failure-type:", cls), "helper threw ", o.other_type, " (", o.what, ") instead of expectation_failed");
   VCHECK(o.file == file, cat("failure-file:", cls), "expectation_failed::file is '", o.file, "' expected '", file, "'");
@@ -157,7 +160,9 @@ static void check_failure(const Outcome& o, const char* file, uint64_t line, con
   if (!what_must_contain.empty()) {
     VCHECK(o.what.find(what_must_contain) != std::string::npos, cat("what-message:", cls), "what() = '", o.what, "' does not contain '", what_must_contain, "'");
   }
-  if (msg_is_literal) {
+  if (msg_is_literal && generated_wording) {
+    VCHECK(o.has_msg && !o.msg.empty(), cat("failure-msg:", cls), "expectation_failed::msg is empty or null");
+  } else if (msg_is_literal) {
     VCHECK(o.has_msg && msg == o.msg, cat("failure-msg:", cls), "expectation_failed::msg is '", (o.has_msg ? o.msg : std::string("(null)")), "' expected '", msg, "'");
   }
 }
@@ -232,7 +237,7 @@ static void run_relation(uint64_t rel, const T& a, const T& b, TruthFn truth, co
   if (expected) {
     check_success(o, cls);
   } else {
-    check_failure(o, __FILE__, line, msg, true, msg, cls);
+    check_failure(o, __FILE__, line, msg, true, msg, cls, rel != 7);
   }
   ctx().cls(cat(kRelNames[rel], expected ? ":holds" : ":fails"));
   ctx().cls(cat("where:", kWhereNames[where]));
@@ -295,7 +300,7 @@ static void run_truth_t(uint64_t helper, T v, bool expected, uint64_t where, con
   if (expected) {
     check_success(o, cls);
   } else {
-    check_failure(o, __FILE__, line, msg, true, msg, cls);
+    check_failure(o, __FILE__, line, msg, true, msg, cls, helper == 0);
   }
   ctx().cls(cat("truth:", tn, expected ? ":true" : ":false"));
   ctx().cls(cat("where:", kWhereNames[where]));
@@ -955,7 +960,7 @@ static void run_once_t(uint64_t rel, Source<T> a, Source<T> b, TruthFn truth, co
   if (expected) {
     check_success(o, ocls);
   } else {
-    check_failure(o, __FILE__, line, msg, true, msg, ocls);
+    check_failure(o, __FILE__, line, msg, true, msg, ocls, rel != 7);
   }
   VCHECK(a.count == 1, cat("operand-evaluations:", cls, expected ? ",holds" : ",fails"), "the left operand expression was evaluated ", a.count, " times");
   if (rel < 6) VCHECK(b.count == 1, cat("operand-evaluations:", cls, expected ? ",holds" : ",fails"), "the right operand expression was evaluated ", b.count, " times");
@@ -1295,6 +1300,8 @@ static void run_retain(const Case& c) {
         case 9: msg = "3rd"; break;
         default: msg = ""; break;
       }
+      // the wording of a macro-made message is not judged: what the failure says when it is caught is what it must keep saying
+      if (kind <= 6) msg = e.msg ? std::string(e.msg) : std::string();
       what_part = msg;
       kept.push_back(Kept{e, msg, line, what_part});
     } catch (...) {
